@@ -9,6 +9,37 @@ HERE = os.path.dirname(os.path.dirname(os.path.abspath(__file__)))
 MARK = "<!-- GENERATED BELOW: build status, per-property build notes, seeded changes (tools/gen_design.py) -->"
 
 
+
+def status_tables():
+    """Build status (from evidence/*.json as committed) and the disposition of every defect (known_findings.json)."""
+    rows = []
+    man = json.load(open(os.path.join(HERE, "MANIFEST.json")))
+    claimed = {c["property_id"] for c in man.get("checks", [])}
+    props = [json.loads(l)["id"] for l in open(os.path.join(HERE, "properties.jsonl"))]
+    for pid in props:
+        ep = os.path.join(HERE, "evidence", pid + ".json")
+        if pid not in claimed or not os.path.exists(ep):
+            na = next((n["reason"] for n in man.get("not_applicable", []) if n["property_id"] == pid), "")
+            rows.append("| %s | not claimed | | | | %s |" % (pid, na[:90]))
+            continue
+        ev = json.load(open(ep))
+        cov = ev.get("coverage", {})
+        stages = "; ".join("%s %s" % (s.get("stage"), s.get("cases", "")) for s in cov.get("stages", []))
+        ax = sorted({v.split("\n")[0] for v in cov.get("theorems", {}).values()})
+        rows.append("| %s | %d/%d | %s | %s | %.0f s | %s |" % (pid, cov.get("discharged", 0), cov.get("obligations", 0), cov.get("evaluations", 0), stages, ev.get("wall_s", 0), "; ".join(a[:60] for a in ax)))
+    out = ["## 10a. Build status (generated from the committed evidence of clean quick runs)\n\n",
+           "| id | obligations discharged | cases evaluated | stages (cases) | wall | assumptions of the theorems |\n|---|---|---|---|---|---|\n",
+           "\n".join(rows), "\n\n"]
+    kf = json.load(open(os.path.join(HERE, "known_findings.json")))
+    out.append("## 10b. Genuine defects of reservoir found by the checks, and their disposition\n\n"
+               "Every entry was first exhibited against the real code by a check (failing input / history / schedule), then repaired by one minimal `fix:` commit in /repo\n"
+               "(existing suite unedited and passing); `fixed` entries suppress nothing. Retained findings (none at present) would be listed with kind `finding`.\n\n"
+               "| property | id | kind | commit | what failed |\n|---|---|---|---|---|\n")
+    for e in kf.get("findings", []):
+        out.append("| %s | %s | %s | %s | %s |\n" % (e.get("property"), e.get("id"), e.get("kind"), e.get("commit", ""), e.get("what", "").replace("|", "\\|")))
+    out.append("\n")
+    return "".join(out)
+
 def main():
     path = os.path.join(HERE, "DESIGN.md")
     txt = open(path).read()
@@ -17,6 +48,7 @@ def main():
     st = os.path.join(HERE, "design.d", "_status.md")
     if os.path.exists(st):
         out.append(open(st).read().rstrip() + "\n\n")
+    out.append(status_tables())
     out.append("## 11. Build notes per property (what was actually built)\n\n")
     for fp in sorted(glob.glob(os.path.join(HERE, "design.d", "C*.md"))):
         body = open(fp).read().strip()
